@@ -149,11 +149,15 @@ func hasMembershipChanged[T runnable](oldConfig, newConfig *Config[T]) bool {
 	}
 
 	// Check if any new runnable is not in the old set
+	newMap := make(map[string]bool)
 	for _, entry := range newConfig.Entries {
 		if !oldMap[entry.Runnable.String()] {
 			return true
 		}
+		newMap[entry.Runnable.String()] = true
 	}
 
-	return false
+	// With duplicate names the lengths can agree while an old runnable is missing from
+	// the new configuration, so the two name sets must be compared in both directions.
+	return len(newMap) != len(oldMap)
 }
